@@ -5,12 +5,20 @@ from zneval import *
 
 class Gen:
     """Instantiates control skeletons: marks are numbered, every 每当 gets its own counter."""
-    def __init__(self):
-        self.m = 0; self.w = 0; self.it = 0
+    def __init__(self, probe=False):
+        self.m = 0; self.w = 0; self.it = 0; self.q = 0; self.probe = probe
+    def q_(self, e, fn="Q"):
+        """probe variant: the expression is evaluated through a method that displays a numbered mark first, so HOW OFTEN and
+        WHEN a condition / loop target is evaluated is part of the compared display trace"""
+        if not self.probe: return e
+        self.q += 1
+        return call(fn, s("q%d" % self.q), e)
     def mark(self):
         self.m += 1
         return mark("m%d" % self.m)
     def cond(self, c, loopvar):
+        return self.q_(self.cond0(c, loopvar))
+    def cond0(self, c, loopvar):
         if c == "T": return b(True)
         if c == "F": return b(False)
         if c == "N": return num(1)
@@ -38,7 +46,7 @@ class Gen:
             self.w += 1
             c = "C%d" % self.w
             body = [ex(asg(var(c), bin_("add", var(c), num(1))))] + self.block(st[1], c)
-            return [decl(c, num(0)), while_(bin_("lt", var(c), num(3)), body)]
+            return [decl(c, num(0)), while_(self.q_(bin_("lt", var(c), num(3))), body)]
         if k == "IT":  # ("IT", coll, nnames, body)
             self.it += 1
             kn, vn = "K%d" % self.it, "V%d" % self.it
@@ -49,7 +57,7 @@ class Gen:
             body = self.block(st[3], lv)
             if st[2] == 2:
                 body = [disp(var(kn), var(vn))] + body
-            return [iter_(names, coll, body)]
+            return [iter_(names, self.q_(coll), body)]
         raise ValueError(k)
 
 
@@ -100,9 +108,17 @@ def stmts(size, inloop, nest):
             yield ("IT", "D", 1, bl)
 
 
-def instantiate(sk, where, tagtxt):
-    g = Gen()
+QFN = func("Q", ["T", "V"], [disp(var("T")), ret(var("V"))])
+def instantiate(sk, where, tagtxt, probe=False):
+    g = Gen(probe)
     body = g.block(sk, None)
+    if probe:
+        if where == "main":
+            p = prog(body + [mark("end"), ex(num(7))], funcs=[QFN])
+        else:
+            p = prog([mark("start"), disp(call("F")), mark("end"), ex(num(7))], funcs=[QFN, func("F", [], body + [mark("fend"), ret(num(8))])])
+        p["tag"] = tagtxt
+        return p
     if where == "main-bare":        # the skeleton is the WHOLE program: a nested 输出 sits in the last statement of the body
         p = prog(body)
     elif where == "fn-bare":
@@ -201,6 +217,10 @@ def run(ctx):
         t = sk_tag(sk)
         progs.append(instantiate(sk, "main", t))
         progs.append(instantiate(sk, "fn", t))
+        # probe variant: conditions and loop targets evaluated through a displaying method
+        if "(" in t and (ctx.tier != "quick" or t.count(",") + t.count("(") <= 2 or rnd.random() < 0.1):
+            progs.append(instantiate(sk, "main", t + "/probe", True))
+            progs.append(instantiate(sk, "fn", t + "/probe", True))
         if "R" in t and (ctx.tier != "quick" or t.count(",") + t.count("(") <= 2 or rnd.random() < 0.3):      # nothing follows the skeleton: its last statement ends the body
             progs.append(instantiate(sk, "main-bare", t + "/bare"))
             progs.append(instantiate(sk, "fn-bare", t + "/bare"))
@@ -212,7 +232,7 @@ def run(ctx):
                     spec_statement_paths=[t["p"] for t in vecs[p["id"]]["tr"]][:12]) for p in ex_]
     cov = dict(traces_validated_against_impl=stats["programs"] - stats["skipped"], samples=samples,
                evaluations=stats["programs"], distinct_nontrivial=len(set(p["tag"] for p in progs)),
-               rule="control skeletons over {mark, if/elseif/else, while, iterate(list|dict|empty, 0/1/2 names), break, continue, return} "
+               rule="control skeletons over {mark, if/elseif/else, while, iterate(list|dict|empty, 0/1/2 names), break, continue, return} (each also in a PROBE variant whose conditions and loop targets are evaluated through a displaying method: number and moment of every evaluation compared) "
                     "nesting<=3: exhaustive up to size %d plus a seeded sample of the next size (thorough: 20000 of size 5 and 12000 of size 6), each at top level and inside a method, plus "
                     "hand-written corner programs; TLC runs the ZnEval machine on every program (invariants in every state) and emits result, "
                     "display trace and executed-statement trace; the interpreter's H2 line events must equal that trace, statement by statement "
